@@ -458,6 +458,11 @@ pub fn drive(p: &Property, tier: Tier) -> i32 {
                 let mut again = vec![(*i, spawn(*i, Some(&pfile)))];
                 let ends2 = wait_children(&mut again, Instant::now() + watchdog * 2);
                 match ends2.get(i) {
+                    Some(ChildEnd::Crashed(st2)) if st2.contains("exit status: 101") => {
+                        // exit code 101 is a Rust panic that escaped the per-case guards: a bug of the harness, not an observation
+                        let err = std::fs::read_to_string(shard_path(*i).with_extension("stderr")).unwrap_or_default();
+                        inconclusive.push(format!("shard {i}: {}", err.lines().last().unwrap_or("harness panic (no message)")));
+                    }
                     Some(ChildEnd::Crashed(st2)) => {
                         let log = std::fs::read_to_string(&pfile).unwrap_or_default();
                         let last = log.lines().last().unwrap_or("").to_string();
